@@ -131,4 +131,26 @@ PROPS['C20'].update({
     'level_note': 'graphviz.Digraph is external (assumed contract, parsed back on the bounded side).',
 })
 
+PROPS['C04'].update({
+    'units': ['fcbo.fast_generate_from', 'fcbo.fcbo_dual', 'algorithms.iterconcepts', 'algorithms.get_concepts', 'common.frompairs',
+              'lemma.line_closed', 'lemma.meet_closed.O', 'lemma.meet_closed.P'] + GALOIS,
+    'level': 'other',
+    'proved_part': 'soundness of both FCbO generators (every stack entry and every yielded pair is a formal concept; index safety); '
+                   'wrappers iterconcepts/get_concepts/frompairs return the same pairs in the same order, get_concepts a list allocated per call',
+    'bounded_part': 'exactly-once and completeness of FCbO (canonicity test + inherited failed sets), agreement with context.lattice',
+    'technique': 'contract-based deductive verification of the FCbO soundness invariant and of the wrappers; bounded stand-in for completeness/uniqueness',
+    'level_text': 'Soundness and wrappers proved for all contexts; completeness and uniqueness bounded only.',
+    'level_note': 'The completeness/uniqueness argument of FCbO is a protocol-level induction that is not attempted; stack abstraction as stated.',
+})
+PROPS['C19'].update({
+    'units': ['contexts.__init__'],
+    'level': 'other',
+    'proved_part': 'Context.__init__ returns normally iff both name lists are non-empty, duplicate-free, disjoint and bools is one row per object '
+                   'with one cell per property; otherwise ValueError before any Relation is built; on success the fields are the Relation\'s vectors/classes',
+    'bounded_part': 'fromdict validation chain; faithfulness of objects/properties/bools (bitsets frombools/bools contracts)',
+    'technique': 'contract-based deductive verification of the constructor\'s iff-postcondition; bounded stand-in (single and double corruptions) for fromdict',
+    'level_text': 'Constructor validation proved for all well-typed inputs; fromdict and faithfulness bounded.',
+    'level_note': 'Input abstracted as (length, duplicate-freeness, disjointness, row count, uniform row length); builtins assumed.',
+})
+
 NOT_APPLICABLE = {}
